@@ -6,6 +6,8 @@
 //!   sk    suspension script by module position: the lookup of the i-th M= module in run r suspends
 //!         sk[(i + r) mod len] times (Pending / parked token / sleep) — the case controls which module is slow
 //! The first rendering of every case is the synchronous one (plain supplier, no suspension, executor A).
+//! Renderings 1..3 print ONE state that was built synchronously: after an amd64 dump was processed and printed on the same thread,
+//! after an x86 dump was, and on a freshly spawned OS thread (state kept between building and printing, in the thread or the process).
 //!   deep  <thread index>:<frames>:<ra>+<ra>+...[;...]  the stack of that T= thread is replaced by a chain of <frames>
 //!         two-word frames [saved frame pointer -> next frame, return address (cycling through the list)], ended by
 //!         [0, 0]: walkable by frame pointer and by `.cfa: sp 2w + .ra: .cfa w - ^ fp: .cfa 2w - ^` alike (the thread's
@@ -220,12 +222,13 @@ struct Rendering {
     tids: Vec<u32>,
 }
 
-async fn process_and_render<S: SymbolSupplier + Send + Sync + 'static>(
+/// build the ProcessState (nothing is printed here)
+async fn build_state<S: SymbolSupplier + Send + Sync + 'static>(
     dump: &Minidump<'_, Vec<u8>>,
     supplier: S,
     opt: u32,
     evil: Option<&std::path::Path>,
-) -> Rendering {
+) -> Result<minidump_processor::ProcessState, String> {
     let provider = Symbolizer::new(supplier);
     let mut options = match opt {
         0 => ProcessorOptions::stable_basic(),
@@ -235,7 +238,12 @@ async fn process_and_render<S: SymbolSupplier + Send + Sync + 'static>(
     if opt >= 2 {
         options.evil_json = evil;
     }
-    match minidump_processor::process_minidump_with_options(dump, &provider, options).await {
+    minidump_processor::process_minidump_with_options(dump, &provider, options).await.map_err(|e| format!("\"ERR {:?}\"", e))
+}
+
+/// print_json + print + print_brief of a state that was built before (possibly elsewhere, possibly long ago)
+fn render_state(state: &Result<minidump_processor::ProcessState, String>) -> Rendering {
+    match state {
         Ok(state) => {
             let mut json = Vec::new();
             state.print_json(&mut json, false).expect("print_json");
@@ -251,8 +259,28 @@ async fn process_and_render<S: SymbolSupplier + Send + Sync + 'static>(
                 tids: state.threads.iter().map(|t| t.thread_id).collect(),
             }
         }
-        Err(e) => Rendering { json: format!("\"ERR {:?}\"", e).into_bytes(), text: vec![], threads: 0, frames: 0, tids: vec![] },
+        Err(e) => Rendering { json: e.clone().into_bytes(), text: vec![], threads: 0, frames: 0, tids: vec![] },
     }
+}
+
+async fn process_and_render<S: SymbolSupplier + Send + Sync + 'static>(
+    dump: &Minidump<'_, Vec<u8>>,
+    supplier: S,
+    opt: u32,
+    evil: Option<&std::path::Path>,
+) -> Rendering {
+    render_state(&build_state(dump, supplier, opt, evil).await)
+}
+
+/// a one-thread dump of the given CPU, processed AND printed on the calling thread: whatever per-thread / per-process state
+/// processing or printing a dump leaves behind is now that of a dump of this CPU (pointer width 4 for x86, 8 for amd64)
+fn process_other_dump(cpu: &str) {
+    let mut spec = Spec { cpu: cpu.into(), os: "linux".into(), ..Default::default() };
+    let (ip, sp) = if cpu == "x86" { ("eip", "esp") } else { ("rip", "rsp") };
+    spec.threads.push(ThreadSpec { id: 1, stack_base: 0x10000, stack: vec![0; 64], regs: Some(vec![(ip.into(), 0x400010), (sp.into(), 0x10000)]) });
+    let dump = Minidump::read(build_dump(&spec)).expect("read");
+    let st = exec_a(build_state(&dump, string_symbol_supplier(HashMap::new()), 0, None));
+    let _ = render_state(&st);
 }
 
 fn json_diff(a: &serde_json::Value, b: &serde_json::Value, path: String, out: &mut Vec<String>) {
@@ -744,6 +772,22 @@ fn run(line: &str) -> String {
         } else {
             exec_a(process_and_render(&dump, BytesSupplier { modules: syms.clone() }, opt, evil_path.as_deref()))
         };
+        renderings.push(rend);
+    }
+    // a state that is built once and printed LATER / ELSEWHERE must print the same bytes as one printed at once: (1) after a dump of
+    // each pointer width was processed and printed on this thread in between, (2) on a thread that has never processed anything
+    {
+        let state = if all_utf8 {
+            let m: HashMap<String, String> = syms.iter().map(|(k, v)| (k.clone(), String::from_utf8(v.clone()).unwrap())).collect();
+            exec_a(build_state(&dump, string_symbol_supplier(m), opt, evil_path.as_deref()))
+        } else {
+            exec_a(build_state(&dump, BytesSupplier { modules: syms.clone() }, opt, evil_path.as_deref()))
+        };
+        process_other_dump("amd64");
+        renderings.push(render_state(&state));
+        process_other_dump("x86");
+        renderings.push(render_state(&state));
+        let rend = std::thread::scope(|sc| sc.spawn(|| render_state(&state)).join().expect("printer thread panicked"));
         renderings.push(rend);
     }
     for mode in [Mode::Count, Mode::Token, Mode::Sleep] {
